@@ -78,6 +78,26 @@ class Run:
             self.fail(clause, case, observed, expected)
         return cond
 
+    def drift(self, msg):
+        """the code no longer follows the implementation-shaped model on a non-property observable"""
+        d = self.extra.setdefault('model_drift', [])
+        if len(d) < 20:
+            d.append(msg)
+        self.extra['model_drift_count'] = self.extra.get('model_drift_count', 0) + 1
+
+    def mc(self, spec, cfg, workers=16, timeout=3000):
+        """exhaustive TLC run of the design-level model; a failure here is a machinery failure (the model is static)"""
+        from . import tlc
+        try:
+            res = tlc.run(spec, cfg, workers=workers, timeout=timeout, check_ok=False)
+        except tlc.TlcError as e:
+            self.machinery(str(e))
+            return None
+        self.add_tlc(res, cfg)
+        if not res['ok']:
+            self.machinery(f"TLC did not pass {spec}/{cfg}: violated={res['violated']}\n" + res['output'][-1500:])
+        return res
+
     def machinery(self, msg):
         self.machinery_errors.append(msg)
 
@@ -122,7 +142,7 @@ class Run:
             print(f"  observed={str(f['observed'])[:300]} expected={str(f['expected'])[:300]}")
         wall = time.time() - self.t0
         cov = {
-            'states': max(1, self.tlc['states']), 'transitions': max(1, self.tlc['transitions']),
+            'states': self.tlc['states'], 'transitions': self.tlc['transitions'],
             'traces_validated_against_impl': self.traces_validated,
             'samples': self.samples[:12] or [{'note': 'no case explored'}],
             'evaluations': self.cases, 'distinct_nontrivial': len(self.nontrivial), 'rule': rule,
